@@ -30,7 +30,7 @@ fn other_record(g: &mut Gen) -> RecSem {
     g.record_of(t)
 }
 
-fn write_side(ctx: &mut Ctx, idx: u64) {
+pub fn write_side(ctx: &mut Ctx, idx: u64) {
     let mut r = ctx.rng("write", idx);
     let mut g = Gen::new(&mut r, Cfg { share: 50, ..Default::default() });
     let rc = if idx % 3 == 0 { 16 } else { NAMED_RCODES_LOW[(idx % 11) as usize] };
@@ -179,6 +179,11 @@ const CAPTURE_BADVERS: &[u8] = &[
 ];
 
 pub fn run(ctx: &mut Ctx) {
+    if let Some(tape) = ctx.tape_case() {
+        // replay of a case found by the coverage-guided `model` target: the tape drives every generator decision
+        super::model_case("C09", ctx, &tape);
+        return;
+    }
     let tier = ctx.tier;
     let scale = if ctx.slow_tool { 0 } else { tier.pick(10u64, 1000u64) };
     let nw = if ctx.slow_tool { 30 } else { 8_000 * scale };
